@@ -883,14 +883,32 @@ class Program:
         return seen
 
 
-def load(configs, tier="quick"):
-    """Extracts and loads the requested configurations. Returns ({cfg: Program}, stats)."""
+def load(configs, tier="quick", latent_openmp=False):
+    """Extracts and loads the requested configurations. Returns ({cfg: Program}, stats). With latent_openmp every Program gets an
+    attribute .latent: None, or the Program in which the units built without -fopenmp but carrying '#pragma omp' lines are parsed
+    with -fopenmp (and .latent_units, their repository-relative paths)."""
     t0 = time.time()
-    scratch, res, stats = X.extract(configs)
+    scratch, res, stats = X.extract(configs, latent_openmp=latent_openmp)
     try:
         progs = {c: Program(c, res[c]) for c in configs}
+        lat = stats.pop("_latent_paths", None) or {}
+        for c in configs:
+            progs[c].latent = Program(c, lat[c]) if lat.get(c) else None
+            progs[c].latent_units = stats.get("latent_openmp_units", [])
+            if progs[c].latent is not None:
+                progs[c].latent.latent = None
+                progs[c].latent.latent_units = progs[c].latent_units
     finally:
         shutil.rmtree(scratch, ignore_errors=True)
     stats["load_wall_s"] = round(time.time() - t0, 2)
     stats["functions"] = {"cm%d_dm%d" % c: len(p.functions) for c, p in progs.items()}
     return progs, stats
+
+
+def load_variant(cfg, rel_file, extra_flags):
+    """Program holding one translation unit re-extracted with extra flags (see extract.extract_variant)."""
+    scratch, path, had = X.extract_variant(rel_file, cfg, extra_flags)
+    try:
+        return Program(cfg, [path]), had
+    finally:
+        shutil.rmtree(scratch, ignore_errors=True)
